@@ -104,16 +104,19 @@ CLAIMED.update({
  'C10': mc('Narrow claim (RecordArray node only): carry(index), getitem_range_nowrap(start, stop) and field(position) of RecordArray executed from their IR on records '
            'with 0..3 opaque field contents: every field content receives the same positional request, record i of the result holds field by field what the request selects '
            'from each content (so projecting a field by position commutes with positional selection), record count and (absent) field names follow; a field position '
-           'outside the record raises.',
-           'Key (string) based access, getitem_fields, zip / unzip / with_field and dict conversion order (Python over _ext) are outside.', 'DESIGN.md section 9.5',
+           'outside the record raises. By name (real std::string objects with concrete short names, the real lookup / sort / compare code, catch clauses modelled): field(name) returns the content stored '
+           'under that name whatever its position (a numeric name is a position, anything else is refused); getitem_field / getitem_fields give exactly the requested fields, under the requested names, '
+           'in the requested order, with the record count kept; projection passes through ListOffsetArray64 / ListArray64 / RegularArray and the four option-type classes unchanged in structure.',
+           'zip / unzip / with_field and dict conversion order (Python over _ext), field names longer than 15 characters (heap strings) are outside.', 'DESIGN.md section 9.5',
            'SMT bounded model checking of C++ method LLVM IR (llbmc node-method harness, opaque field contents); native replay through the whole library (akrun)'),
  'C14': mc('Narrow claim (GrowableBuffer only): one inductive step of append / set_length / clear of GrowableBuffer<int64_t>, executed symbolically from '
            'the method IR from an arbitrary state satisfying the representation invariant: writes stay inside the buffer they target, cells [0, old '
            'length) of the old buffer (shared with snapshots) are never written, the prefix is preserved across reallocation, the invariant is re-established. '
            'Builder tree: RecordBuilder::endrecord as one inductive step from any open-record state (fields filled at most once, any key cursor) with opaque field '
            'builders: every field ends with exactly one entry per closed record (missing fields receive null()); ListBuilder::endlist (offsets grow by the content length) and '
-           'OptionBuilder::null / integer (index gets -1 / the position the value received) as single steps over the real GrowableBuffer code.',
-           'The other builders (Unknown/Option/Union/List/Tuple and the leaf builders), from_iter and LayoutBuilder are outside. kernel::malloc stubbed (fresh exact-size buffer), resize in [1.5, 16] '
+           'OptionBuilder::null / integer (index gets -1 / the position the value received) as single steps over the real GrowableBuffer code; Int64Builder::real (the integers so far converted to double in order, then x; '
+           'the old buffer untouched) and UnknownBuilder::integer after k leading None (option builder with index -1 ... -1 0 over an integer builder holding exactly x).',
+           'The other builders (Union/Tuple/String and the remaining leaf builders), from_iter and LayoutBuilder are outside. kernel::malloc stubbed (fresh exact-size buffer), resize in [1.5, 16] '
            '(thorough adds (1, 1.5]).', 'DESIGN.md section 3 (C14)', 'SMT bounded model checking of C++ method LLVM IR (llbmc M-harness, z3 FP); native ASan replay'),
  'C17': mc('Narrow claim (depth queries only): purelist_depth, minmax_depth, branch_depth and numfields of ListOffsetArray64, ListArray64, RegularArray, IndexedOptionArray64, '
            'IndexedArray64, ByteMaskedArray and UnmaskedArray executed from their IR over a content whose own answers are arbitrary: a list node is one level deeper than its '
